@@ -23,7 +23,9 @@ structure Tok where
   audience : List String := []
   refresh : String := ""          -- refresh token issued together with it ("" = none)
   issuer : String := ""           -- the issuer (`op.IssuerFromContext(ctx)`) it was created under
-  expired : Bool := false
+  exp : Int := 0                  -- the expiration the storage gave it (what `CreateAccessToken` returned; ns since the epoch)
+  jwt : Bool := false             -- handed out as a JWT (the client's `AccessTokenType`), else as an opaque token
+  expired : Bool := false         -- the storage's verdict `Expiration.Before(now)` at the request being served (Model/ResourceTime.lean)
   revoked : Bool := false
   gone : Bool := false            -- removed from the table (rotation of its refresh token)
   deriving DecidableEq, Repr, Inhabited
@@ -37,6 +39,7 @@ structure RTok where
   subject : String
   access : String := ""           -- id of the access token issued together with it
   issuer : String := ""           -- the issuer it was created under
+  exp : Int := 0                  -- the expiration the storage gave it
   expired : Bool := false
   gone : Bool := false            -- removed from the table (revoked, rotated, session terminated)
   deriving DecidableEq, Repr, Inhabited
@@ -243,11 +246,14 @@ structure ResKeyErr where
 instance : Go.Nilable ResKeyErr := ⟨fun e => !e.isSet⟩
 instance : Coe ResKeyErr String := ⟨fun e => e.msg⟩
 
-/-- `new(revocationKeySet)`: hands the verifier on unchanged and holds no error -/
+/-- `revocationKeySet` (pkg/op/token_revocation.go): embeds the key set it wraps and holds the error slot.  Its `verifier` method is
+    REGENERATED (`GenRes.revocationKeySetVerifier`).  As an `oidc.KeySet` the recorder verifies signatures exactly as the key set it
+    wraps (its `VerifySignature` delegates and only notes a key-fetch error): that is the coercion. -/
 structure ResRevocationKeys where
+  KeySet : KeySet := {}
   err : ResKeyErr := {}
   deriving Inhabited
-def ResRevocationKeys.verifier (_k : ResRevocationKeys) (v : Verifier) : Verifier := v
+instance : Coe ResRevocationKeys KeySet := ⟨fun k => k.KeySet⟩
 
 /-- the body of a success response that carries nothing (`MarshalJSON(w, nil)`, `NewResponse(nil)`) -/
 inductive ResBody | empty
@@ -263,13 +269,20 @@ structure ResWorld where
   store : Res.St := {}
   ctxIssuer : String := ""      -- the issuer in the context of the request being served
   out : List ResWrite := []
+  faults : List String := []    -- input: the storage methods that FAIL while this request is served (outage, cancelled context, ...)
   deriving Repr, Inhabited
 
 namespace ResWorld
-def GetRefreshTokenInfo (w : ResWorld) (clientID token : String) : Go.R (String × String) := w.store.GetRefreshTokenInfo w.ctxIssuer clientID token
+/-- a failing `GetRefreshTokenInfo` answers with an error that is NOT `op.ErrInvalidRefreshToken` -/
+def GetRefreshTokenInfo (w : ResWorld) (clientID token : String) : Go.R (String × String) :=
+  if w.faults.contains "GetRefreshTokenInfo" then .error "storage unavailable"
+  else w.store.GetRefreshTokenInfo w.ctxIssuer clientID token
+/-- a failing `RevokeToken` changes nothing and answers `server_error` -/
 def RevokeToken (w : ResWorld) (tokenOrID userID clientID : String) : ResWorld × Go.R Unit :=
-  let (s, r) := w.store.RevokeToken w.ctxIssuer tokenOrID userID clientID
-  ({ w with store := s }, r)
+  if w.faults.contains "RevokeToken" then (w, .error "ErrServerError")
+  else
+    let (s, r) := w.store.RevokeToken w.ctxIssuer tokenOrID userID clientID
+    ({ w with store := s }, r)
 end ResWorld
 
 /-- request data of the legacy server's resource handlers (`oidc.UserInfoRequest`, `IntrospectionRequest`, `oidc.RevocationRequest`) -/
@@ -315,8 +328,8 @@ def resSplit (s sep : String) : List String :=
 
 def resErrorsIs (err target : String) : Bool := err == target
 
-/-- `op.NewAccessTokenVerifier(issuer, keySet, opts...)` -/
-def resNewAccessTokenVerifier (issuer : String) (keySet : KeySet) (algs : List String) : Verifier :=
+/-- `op.NewAccessTokenVerifier(issuer, keySet, opts...)`; no options = the defaults (`algs = []`: RS256 only) -/
+def resNewAccessTokenVerifier (issuer : String) (keySet : KeySet) (algs : List String := []) : Verifier :=
   { Issuer := issuer, KeySet := keySet, SupportedSignAlgs := algs }
 
 /-- `VerifyAccessToken[*oidc.AccessTokenClaims](ctx, token, verifier)` on the token the string denotes -/
